@@ -1147,6 +1147,20 @@ pub fn write_evidence(spec: &CheckSpec, tier: &str, verif_seed: u64, outcomes: &
     std::fs::write(format!("{dir}/{}.json", spec.property), serde_json::to_string_pretty(&ev).unwrap()).unwrap();
 }
 
+/// The simulated threads of a run that ended in StepCap/Deadlock are parked for ever — possibly while holding the
+/// harness's result mutex. Never block on it after the run: take the value if the lock can be had, else start
+/// from an empty result (the run is inconclusive anyway).
+pub fn take_after_run<T: Default>(m: &std::sync::Arc<std::sync::Mutex<T>>) -> T {
+    for _ in 0..200 {
+        match m.try_lock() {
+            Ok(mut g) => return std::mem::take(&mut *g),
+            Err(std::sync::TryLockError::Poisoned(p)) => return std::mem::take(&mut *p.into_inner()),
+            Err(std::sync::TryLockError::WouldBlock) => std::thread::sleep(std::time::Duration::from_millis(10)),
+        }
+    }
+    T::default()
+}
+
 pub fn silence_panics() {
     if std::env::var("VSIM_PANIC").is_ok() {
         return;
